@@ -8,7 +8,8 @@ rounds = {"r": "round 1 (single idioms)", "s": "round 2 (combined idioms, helper
           "w": "round 6 (helpers with guard clauses, reorganised early returns, in-place <-> out-of-place on locals; after the obligations of DESIGN section 29)",
           "x": "round 7 (as round 6 plus module / class constants, explicit dtypes, wrapper + worker splits; after the obligations of DESIGN section 31)",
           "y": "round 8 (plumbing around the computation: forwarding, defaults, error paths, result assembly; after the obligations of DESIGN section 33)",
-          "z": "round 9 (guard clauses and early returns, string helpers, context managers, serialisation, save / load / reset; after the obligations of DESIGN section 35)"}
+          "z": "round 9 (guard clauses and early returns, string helpers, context managers, serialisation, save / load / reset; after the obligations of DESIGN section 35)",
+          "q": "round 10 (25 variants of C01, C02, C06, C13, C16: only the string / name / date helpers that the table rules of DESIGN sections 36-37 evaluate, restructured heavily)"}
 out = ["# Behaviour-preserving variants (`seeded/refactorings/`)", "",
        "Each directory holds `patch.diff` (against `/repo` HEAD) and `meta.json` (what the sub-agent did and how it verified",
        "equivalence: unchanged test result, import check, old-versus-new harness).  `python3 tools/ref_check.py [filter]` applies every",
